@@ -60,6 +60,8 @@ type FuncContract struct {
 	AssumedEnsures []*Clause // postconditions that callers may assume although this run does not prove them (listed in the evidence)
 	Panics   []*Clause // function panics exactly when (disjunction)
 	OpaqueMul bool     // products of two non-constant integer terms are written tm(a, b), uninterpreted: what the proof knows about them are lemma instances
+	OpaqueDiv bool     // in contract expressions a / b with a non-constant divisor is written dv(a, b), uninterpreted (known through lemma instances only)
+	NoPanicFrom []*Clause // with maypanic: callees whose characterised panic must nevertheless be unreachable here
 	MayPanic bool      // panics are allowed without characterisation (only for callers' benefit: reach is cut)
 	Modifies []*Clause
 	Lets     []*Clause // evaluated at entry
@@ -120,7 +122,7 @@ type Contracts struct {
 
 var clauseKeywords = map[string]bool{
 	"func": true, "lemma": true, "axiom": true, "mode": true, "prelude": true, "requires": true, "ensures": true, "panics": true,
-	"maypanic": true, "opaquemul": true, "proves": true, "modifies": true, "loop": true, "invariant": true, "decreases": true, "unroll": true, "witness": true,
+	"maypanic": true, "nopanic": true, "opaquemul": true, "opaquediv": true, "proves": true, "modifies": true, "loop": true, "invariant": true, "decreases": true, "unroll": true, "witness": true,
 	"let": true, "postlet": true, "trusted": true, "inline": true, "pure": true, "use": true, "postuse": true, "opaque": true,
 	"havoc": true, "nosafety": true, "assume": true, "param": true, "loopmodifies": true, "looplet": true, "loopuse": true, "stepassert": true, "bits": true, "end": true, "macro": true, "cases": true, "ghostview": true, "assumedensures": true,
 }
@@ -348,8 +350,13 @@ func (cs *Contracts) parseFile(file, pkg, src string) error {
 			fc.Pure = true
 		case "maypanic":
 			fc.MayPanic = true
+		case "nopanic":
+			// nopanic <callee>: although this function may panic (maypanic), the stated panic of that callee is proved unreachable
+			fc.NoPanicFrom = append(fc.NoPanicFrom, &Clause{Kind: "nopanic", Props: r.props, Text: strings.TrimSpace(r.text), File: file, Line: r.line})
 		case "opaquemul":
 			fc.OpaqueMul = true
+		case "opaquediv":
+			fc.OpaqueDiv = true
 		case "nosafety":
 			fc.NoSafety = true
 		case "opaque":
